@@ -516,6 +516,18 @@ pub fn build_small() -> Corpus {
     for (n, t) in extra {
         items.push((n.to_string(), t.split(' ').filter(|x| !x.is_empty()).map(|x| x.replace('~', " ")).collect()));
     }
+    // ... and under directives with TWO constraints whose versions lie on different sides of a threshold (the separator
+    // between the constraints is part of the layout space)
+    for (n, t) in extra {
+        for (vn, ver) in [("range-080-090", ">=0.8.0 <0.9.0"), ("range-070-084", ">=0.7.0 <0.8.4"), ("range-084-070", "<0.8.4 >=0.7.0")] {
+            let mut all: Vec<String> = vec!["pragma".into(), "solidity".into()];
+            all.extend(ver.split(' ').map(|x| x.to_string()));
+            all.push(";".into());
+            all.extend("using SafeMath for uint256 ;".split(' ').map(|x| x.to_string()));
+            all.extend(t.split(' ').filter(|x| !x.is_empty()).map(|x| x.replace('~', " ")));
+            acc.add("S.pool", format!("{}@{}", n, vn), Frag { toks: all, nodes: Vec::new(), prec: 0, open: false });
+        }
+    }
     for (n, toks) in items {
         for ver in ["0.7.6", "0.8.3", "0.8.19"] {
             let mut all: Vec<String> = vec!["pragma".into(), "solidity".into(), ver.into(), ";".into()];
